@@ -132,3 +132,7 @@ Inductive css_fact := CF_ParentElement | CF_PrevSiblingElement | CF_FirstChildVi
 
 (* has_valid_transform: the conjuncts of its final test *)
 Inductive ts_test := TT_IsValid | TT_DetRelTol.
+
+(* parser/filter.rs, create_base_filter_func (filter FUNCTIONS such as blur(2)): the generated filter id is taken only after
+   the element's bounding box was found to exist and the region was computed *)
+Inductive filter_fact := FF_GenIdAfterRegionCheck | FF_NoBBoxReturnsEarly.
